@@ -123,6 +123,22 @@ CHECKS = {
             'reversal/rotations; whole file reversed), reloaded through ModelLoader.input, and must behave identically.',
             'Trusted: mc/refs/oaleval.py. Bodies use the constructs C04 checks separately.',
             'DESIGN.md section 5, C15'),
+    'C01': ('enumerator',
+            'bounded exhaustive enumeration of metamodels x serialization routes; snapshot equality and serialisation fixed point on the real persist/load code',
+            'Four exhaustive families: values (every string up to length 2 (thorough 3) over an 11-character alphabet of quotes, '
+            'comment markers, line breaks, NUL, non-ASCII plus 13 adversarial strings, in three attribute orders; the full '
+            'product of 10 integers x 9 reals x 4 ids x 2 booleans incl. >64-bit and 128-bit values; every attribute unset); '
+            'links (36 schemas: nine association shapes, integer/string/real/boolean/two-attribute keys, phrased non-reflexive, '
+            'all 16 multiplicity/conditionality combinations; every population of 0-2 (3) instances per class and every function '
+            'referring instance -> referred instance or null that the API accepts); names that are words of the format (20 '
+            'words as class, attribute, index name and phrase, one at a time and all at once; mixed-case type names); all '
+            'definition orders of three classes and three associations. Every metamodel goes through serialize_database, '
+            'schema+instances+identifiers as one text and as three inputs in all six orders, serialize() dispatch, '
+            'persist_database, persist_schema/instances/unique_identifiers files in three orders, and instances-only loading; '
+            'the reloaded snapshot (classes, types, identifiers, associations with keys/cardinalities/phrases, instances in '
+            'order, links in both directions) must be equal and serialising the reloaded model must be a fixed point.',
+            'Trusted: mc/refs/sqlmodel.py snapshot. Domain restrictions are listed in the evidence assumptions.',
+            'DESIGN.md section 5, C01'),
 }
 
 NOT_YET = 'check not built yet in this revision (planned, see DESIGN.md section 5); not claimed until it exists'
